@@ -7,4 +7,5 @@ CONSTANTS
   FixD10 = TRUE
   FixD12 = FALSE
   FixD17 = TRUE
+  FixD18 = TRUE
 INVARIANT C06_AllExitedAfterJoin
